@@ -12,7 +12,7 @@ from mc.world import World1, num_in, num_out, journal_rows, conn_key, task_resul
 POOL = [("SRV", "CLI"), ("ACC", "INI"), ("S1", "T1"), ("EXCH", "FIRM")]
 CFG = {"S": "SRV", "T": "CLI", "quick": True}
 
-SENDS = ("app", "hb", "logon", "logout", "tr_direct", "tr_api", "sr_nonum", "sr_num", "pd_copy", "app_grp", "app_pdn")
+SENDS = ("app", "hb", "logon", "logout", "tr_direct", "tr_api", "sr_nonum", "sr_num", "pd_copy", "app_grp", "app_pdn", "app_bad")
 INBOUND = ("logon", "app", "tr", "gap_app", "rr1", "rr2", "gapfill", "logout", "hb")
 
 
@@ -27,6 +27,10 @@ def mk_msg(kind, c, uid):
     if kind == "app_grp":
         # repeating group + non-ASCII text (utf-8 on the wire)
         return FIXMessage("D", {11: f"g{uid}", 453: [{448: "p", 447: "D", 452: 1}], 58: "Z\u00fcrich \u6771\u4eac"})
+    if kind == "app_bad":
+        # a message that cannot be put on the wire (text with a lone surrogate is not encodable as utf-8): whatever the
+        # send call does with it, the numbering of the messages that do leave stays gap-free
+        return FIXMessage("D", {11: f"b{uid}", 58: "bad \udc80 text"})
     if kind == "hb":
         return FIXMessage(FMsg.HEARTBEAT)
     if kind == "logon":
